@@ -43,12 +43,15 @@ let producer_of_string s =
   | ["titer"; i] -> PTupleIter (inner_of_string i)
   | _ -> failwith ("producer " ^ s)
 
-let op_of_string s = match s with
+let op_of_string s =
+  (* "@e/@s/@q/@l": size class of the argument (empty, shorter, equal, longer); the model has no sizes *)
+  let s = match String.index_opt s '@' with Some i -> String.sub s 0 i | None -> s in
+  match s with
   | "del" -> OpDel | "del_raw" -> OpDelRaw | "del_root" -> OpDelRoot
   | "dealloc" -> OpDealloc | "dealloc_raw" -> OpDeallocRaw | "dealloc_root" -> OpDeallocRoot
   | "destruct" -> OpDestruct | "assign" -> OpAssign | "resize" -> OpResize | "concat" -> OpConcat
   | "append" -> OpAppend | "print_to" -> OpPrintTo | "push" -> OpPush | "pop" -> OpPop
-  | "push_at" -> OpPushAt | "pop_at" -> OpPopAt | "rem" -> OpRem | "sweep" -> OpSweep
+  | "push_at" -> OpPushAt | "pop_at" -> OpPopAt | "rem" -> OpRem | "sweep" -> OpSweep | "del_stopped" -> OpDelStopped
   | _ -> failwith ("op " ^ s)
 
 let string_of_outcome o = match o with
@@ -62,7 +65,7 @@ let cnt f l = List.length (List.filter f l)
 let b2s b = if b then "1" else "0"
 
 let is_deleting o = match o with
-  | OpDel | OpDelRaw | OpDelRoot | OpDealloc | OpDeallocRaw | OpDeallocRoot -> true | _ -> false
+  | OpDel | OpDelRaw | OpDelRoot | OpDealloc | OpDeallocRaw | OpDeallocRoot | OpDelStopped -> true | _ -> false
 
 let () =
   let mode = if Array.length Sys.argv > 1 then Sys.argv.(1) else "model" in
